@@ -38,7 +38,7 @@ CONSTANTS
     InitErrs,    \* {FALSE} or {FALSE, TRUE}: may the stream-init handler fail
     Inputs,      \* exchange inputs offered: subset of {"ok", "drift"}
     Decls,       \* unary: is a result schema declared: subset of BOOLEAN
-    FaultKinds,  \* response faults offered (see Stage below)
+    FaultKinds,  \* response faults offered (listed under "Response faults" below)
     MaxPerTurn,  \* 1: one fault per turn; 2: also the listed same-turn pairs
     MaxFaults,   \* faults per behaviour (tree mode; 99 = unbounded)
     MaxCur,      \* bound on cursors minted (bounds exchange turns and retried producer turns)
